@@ -82,13 +82,29 @@ def shipped(x):
 def local_only():
     return 400
 
+class Conf:
+    LIMIT = 5
+
+    def __init__(self, base):
+        self.base = base
+
+    def compute(self):
+        return self.base * 2 + self.extra()
+
+    def extra(self):
+        return 600
+
+    @staticmethod
+    def stat():
+        return 55
+
 def combine(a, w=1):
     return a * w
 ''',
     "pipe.py": '''
 import dds
 from . import helpers
-from .helpers import scaled as sc, sort_key as skey
+from .helpers import scaled as sc, sort_key as skey, Conf
 from . import consts
 from .consts import UNITF as UNITF_D, ZEROF as ZEROF_D
 from .consts import BATCH as BATCH_D, RATE as RATE_D, TAGS as TAGS_D, FROZEN as FROZEN_D
@@ -151,6 +167,14 @@ def leaf_li():
     from .helpers import local_only as lo
     return lo()
 
+def leaf_method():
+    CALLS.append("leaf_method")
+    return Conf(4).compute() + Conf.stat()
+
+def leaf_clsattr():
+    CALLS.append("leaf_clsattr")
+    return Conf.LIMIT
+
 def leaf_reexp():
     CALLS.append("leaf_reexp")
     return reexp.shipped(1)
@@ -196,6 +220,8 @@ def root():
     out["tags"] = dds.keep("/c/tags", leaf_tags)
     out["unit"] = dds.keep("/c/unit", leaf_unit)
     out["li"] = dds.keep("/c/li", leaf_li)
+    out["method"] = dds.keep("/c/method", leaf_method)
+    out["clsattr"] = dds.keep("/c/clsattr", leaf_clsattr)
     out["reexp"] = dds.keep("/c/reexp", leaf_reexp)
     out["ext"] = dds.keep("/c/ext", leaf_ext)
     out["args"] = dds.keep("/c/args", with_args, 1, c="y")
@@ -222,7 +248,7 @@ import os, importlib
 shipped = importlib.import_module(os.environ.get("CORPUS_PKG", "corp") + ".helpers").shipped
 '''
 
-ALL = ["/c/plain", "/c/scaled", "/c/items", "/c/flag", "/c/pair", "/c/direct", "/c/kw", "/c/href", "/c/batch", "/c/rate", "/c/tags", "/c/unit", "/c/li", "/c/reexp", "/c/ext", "/c/args", "/c/args2", "/c/args3", "/c/rt", "/c/dup", "/c/ann_root", "/c/annotated", "/c/top_args"]
+ALL = ["/c/plain", "/c/scaled", "/c/items", "/c/flag", "/c/pair", "/c/direct", "/c/kw", "/c/href", "/c/batch", "/c/rate", "/c/tags", "/c/unit", "/c/li", "/c/method", "/c/clsattr", "/c/reexp", "/c/ext", "/c/args", "/c/args2", "/c/args3", "/c/rt", "/c/dup", "/c/ann_root", "/c/annotated", "/c/top_args"]
 # edits: (name, file, old, new, kept paths whose cone contains the edit [besides the root], value must change for these)
 EDITS = [
     ("callee body (transitive)", "corp/helpers.py", "return 10", "return 11", ["/c/scaled", "/c/rt"]),
@@ -243,6 +269,10 @@ EDITS = [
     ("int variable becomes the equal float (another variable holds the same int)", "corp/consts.py", "RATE = 1", "RATE = 1.0", ["/c/rate", "/c/rt"]),
     # (BATCH = 1 -> True is not an edit dds has to see: bool = int is a documented identification of the value hash)
     ("callee imported inside the function body", "corp/helpers.py", "return 400", "return 401", ["/c/li", "/c/rt"]),
+    ("method body reached through an instance", "corp/helpers.py", "return 600", "return 601", ["/c/method", "/c/rt"]),
+    ("static method body", "corp/helpers.py", "return 55", "return 56", ["/c/method", "/c/rt"]),
+    # (a class is a dependency as a whole: every user of Conf is in the cone of an edit anywhere in the class body)
+    ("class attribute read without a call", "corp/helpers.py", "LIMIT = 5", "LIMIT = 6", ["/c/clsattr", "/c/method", "/c/rt"]),
     ("unused variable", "corp/consts.py", "UNUSED = 10", "UNUSED = 11", []),
     ("unrelated definition added", "corp/helpers.py", "def untouched():", "def brand_new():\n    return 0\n\ndef untouched():", []),
     ("non-accepted module body", "extmod.py", "return x * 100", "return x * 200", []),
@@ -256,6 +286,8 @@ UNTRACKED_TYPES = {"bool variable", "tuple variable", "None variable"}
 FUN_ATTR_READERS = {"function referenced through a module attribute": ["/c/href", "/c/rt", "/c/dup"]}
 # a name bound by an import statement inside the function body is not resolved by the analysis: the callee is invisible
 LOCAL_IMPORT_READERS = {"callee imported inside the function body": ["/c/li", "/c/rt", "/c/dup"]}
+# a class that is referenced but not called (Conf.LIMIT) is not inspected at all
+CLASS_ATTR_READERS = {"class attribute read without a call": ["/c/clsattr", "/c/rt", "/c/dup"]}
 KNOWN_EDIT_CLASSES = {}
 
 RUNNER = r'''
@@ -409,7 +441,7 @@ def edit(d, rel, old, new):
     shutil.rmtree(os.path.join(os.path.dirname(p), "__pycache__"), ignore_errors=True)
 
 
-FUN_OF = {"/c/li": "leaf_li", "/c/dup": "dup_leaf", "/c/unit": "leaf_unit", "/c/batch": "leaf_batch", "/c/rate": "leaf_rate", "/c/tags": "leaf_tags", "/c/reexp": "leaf_reexp", "/c/top_args": "with_values", "/c/kw": "leaf_kw", "/c/href": "leaf_href", "/c/direct": "leaf_direct", "/c/plain": "leaf_plain", "/c/scaled": "leaf_scaled", "/c/items": "leaf_items", "/c/flag": "leaf_flag", "/c/pair": "leaf_pair", "/c/ext": "leaf_ext", "/c/args": "with_args:1", "/c/args2": "with_args:2", "/c/args3": "with_args:3", "/c/rt": "with_runtime", "/c/annotated": "annotated", "/c/ann_root": "root"}
+FUN_OF = {"/c/method": "leaf_method", "/c/clsattr": "leaf_clsattr", "/c/li": "leaf_li", "/c/dup": "dup_leaf", "/c/unit": "leaf_unit", "/c/batch": "leaf_batch", "/c/rate": "leaf_rate", "/c/tags": "leaf_tags", "/c/reexp": "leaf_reexp", "/c/top_args": "with_values", "/c/kw": "leaf_kw", "/c/href": "leaf_href", "/c/direct": "leaf_direct", "/c/plain": "leaf_plain", "/c/scaled": "leaf_scaled", "/c/items": "leaf_items", "/c/flag": "leaf_flag", "/c/pair": "leaf_pair", "/c/ext": "leaf_ext", "/c/args": "with_args:1", "/c/args2": "with_args:2", "/c/args3": "with_args:3", "/c/rt": "with_runtime", "/c/annotated": "annotated", "/c/ann_root": "root"}
 
 
 def main():
@@ -483,11 +515,13 @@ def main():
                             c = "function_referenced_through_module_attribute"
                         elif p in LOCAL_IMPORT_READERS.get(name, []):
                             c = "callee_imported_inside_function_body"
+                        elif p in CLASS_ATTR_READERS.get(name, []):
+                            c = "class_attribute_read_without_call"
                         else:
                             c = None
                         note(c, "[%s] the signature of %s did not change although the edit is in its dependency cone (stale result served)" % (name, p))
                     if after["value"] != plain["value"] and name != "non-accepted module body":  # untracked by design (C14)
-                        cs = {("variable_read_through_module_attribute" if p in ATTR_READERS.get(name, []) else "untracked_variable_type" if (p == "/c/direct" and name in UNTRACKED_TYPES) else "function_referenced_through_module_attribute" if p in FUN_ATTR_READERS.get(name, []) else "callee_imported_inside_function_body" if p in LOCAL_IMPORT_READERS.get(name, []) else None) for p in stale}
+                        cs = {("variable_read_through_module_attribute" if p in ATTR_READERS.get(name, []) else "untracked_variable_type" if (p == "/c/direct" and name in UNTRACKED_TYPES) else "function_referenced_through_module_attribute" if p in FUN_ATTR_READERS.get(name, []) else "callee_imported_inside_function_body" if p in LOCAL_IMPORT_READERS.get(name, []) else "class_attribute_read_without_call" if p in CLASS_ATTR_READERS.get(name, []) else None) for p in stale}
                         c = None if (None in cs or not cs) else sorted(cs)[0]
                         note(c, "[%s] dds returns %s, plain execution of the edited code gives %s" % (name, after["value"][:160], plain["value"][:160]))
                 else:
